@@ -12,6 +12,7 @@ import Driver.CfgStore
 import Driver.Update
 import Driver.Form
 import Driver.Relay
+import Driver.DevConn
 
 def main (args : List String) : IO UInt32 := do
   match args with
@@ -29,4 +30,5 @@ def main (args : List String) : IO UInt32 := do
   | ["update"] => Driver.UpdateDrv.main; return 0
   | ["form"] => Driver.FormDrv.main; return 0
   | ["relay"] => Driver.RelayDrv.main; return 0
+  | ["devconn"] => Driver.DevConnDrv.main; return 0
   | _ => IO.eprintln "usage: svdrv <subsystem>"; return 2
